@@ -85,6 +85,9 @@ var lops = []lop{
 	{"Indent", func(s string) string { return ansi.Indent(s, "  ", false) }},
 	{"IndentStyled", func(s string) string { return ansi.Indent(s, style.Color("▌"), true) }},
 	{"Snip3x2", func(s string) string { return ansi.Snip(s, 3, 2, style.Color("…")) }},
+	// the last kept line is exactly as wide as the width and ends in a styled character
+	{"Snip1x1", func(s string) string { return ansi.Snip(s, 1, 1, style.Color("…")) }},
+	{"Snip1x2plain", func(s string) string { return ansi.Snip(s, 1, 2, "…") }},
 }
 
 type expr struct {
@@ -151,6 +154,12 @@ func judge(r *ev.Report, e expr, layout []int, out string, want map[rune]oracle.
 	if len(unk) > 0 {
 		r.Violation("sgr:foreign:"+stage, detail(fmt.Sprintf("unknown SGR parameters %q", unk)))
 		return
+	}
+	for _, c := range cells {
+		if c.R == 0x1b {
+			r.Violation("sgr:malformed:"+stage, detail("an escape character that is not part of a complete SGR sequence (a sequence was cut)"))
+			return
+		}
 	}
 	if ok, where := oracle.NeutralAtLineEnds(out); !ok {
 		r.Violation("leak:"+stage, detail(where))
